@@ -214,6 +214,7 @@ func (e Engine) Generate(r *core.Rand, tier core.Tier) *core.Scenario {
 		}
 	}
 	sc := &core.Scenario{Engine: "chain", Knobs: core.MustJSON(k)}
+	gasFitRand := core.NewRand(core.Derive(core.Hash64([]byte(k.Gen.Salt)), "gas-fit", 0))
 	heights := r.Range(12, 40)
 	if tier == core.Thorough {
 		heights = r.Range(20, 90)
@@ -268,6 +269,10 @@ func (e Engine) Generate(r *core.Rand, tier core.Tier) *core.Scenario {
 				op.GasMode = 1
 			case 1:
 				op.GasMode = 2 + r.Range(0, 80)
+			}
+			if e.Prop == "C08" && gasFitRand.Chance(1, 6) {
+				// (C08 only, own PRNG: a limit around what the method charges, see TxOp.GasFit)
+				op.GasMode, op.GasFit = 0, 1+gasFitRand.Range(0, int(k.Gen.GasBase)+130)
 			}
 			if r.Chance(1, 12) {
 				op.NonceOff = []int{-1, 1, 2, -5}[r.Intn(4)]
